@@ -64,6 +64,10 @@ Consume(f, s, i) ==
   ELSE IF f = "float(None)" THEN FloatLen(s, i)
   ELSE IF f = "re([a-z]+)" THEN (LET n == LowerLen(s, i) IN IF n = 0 THEN -1 ELSE n)
   ELSE IF f = "re(to.)" THEN (IF StartsWithAt(s, <<116, 111>>, i) /\ i + 2 < Len(s) /\ s[i + 3] # LF THEN 3 ELSE -1)
+  \* expressions that look at their own left edge: a filter is matched against the REMAINING text, so '^' holds at i and
+  \* '\b' holds at i whenever a word character starts there, whatever precedes position i in the path
+  ELSE IF f = "re(^to.)" THEN (IF StartsWithAt(s, <<116, 111>>, i) /\ i + 2 < Len(s) /\ s[i + 3] # LF THEN 3 ELSE -1)
+  ELSE IF f = "re(\\b[a-z]+)" THEN (LET n == LowerLen(s, i) IN IF n = 0 THEN -1 ELSE n)
   ELSE IF f = "path()" THEN (LET n == DotLen(s, i) IN IF n = 0 \/ i + n # Len(s) THEN -1 ELSE n)   \* .+$  ($ at the very end; no trailing LF in probes)
   ELSE IF f = "path(/e)" THEN LastLit(s, i, <<SEP, 101>>)
   ELSE IF f = "path(e)" THEN LastLit(s, i, <<101>>)
